@@ -15,6 +15,10 @@ import (
 // refresh when a sync is running; store; end → release + complete.
 // It returns false when the request is rejected.
 func vHTTPEntities(ds *Dataset, start bool, id string, end bool, ents []*Entity) bool {
+	return vHTTPEntitiesCtx(context.Background(), ds, start, id, end, ents)
+}
+
+func vHTTPEntitiesCtx(ctx context.Context, ds *Dataset, start bool, id string, end bool, ents []*Entity) bool {
 	if start {
 		if err := ds.StartFullSyncWithLease(id); err != nil {
 			return false
@@ -33,7 +37,7 @@ func vHTTPEntities(ds *Dataset, start bool, id string, end bool, ents []*Entity)
 		if err := ds.ReleaseFullSyncLease(id); err != nil {
 			return false
 		}
-		if err := ds.CompleteFullSync(context.Background()); err != nil {
+		if err := ds.CompleteFullSync(ctx); err != nil {
 			return false
 		}
 	}
@@ -103,7 +107,7 @@ func VerifC09FullSync(h *verifh.H) {
 	nops := h.Param("ops", 3)
 	for k := 0; k < nops; k++ {
 		tag := "k" + itoa(k)
-		op := h.Choice("op", 8)
+		op := h.Choice("op", 8+h.Param("cutOff", 0))
 		when := "op" + itoa(k) + "=" + itoa(op)
 		switch op {
 		case 7: // a write to the dataset through a transaction (POST /transactions), sync running or not
@@ -144,6 +148,19 @@ func VerifC09FullSync(h *verifh.H) {
 			} else {
 				h.Assert(!ok, "a batch carrying a foreign or missing sync id is rejected :: "+when)
 			}
+		case 8: // HTTP end request of the running sync whose client goes away while the hub completes it
+			// (the request context is cancelled): the completion fails, nothing is deleted, and the sync is
+			// over — abandoned — so nothing is deleted later either
+			if m.active != 2 {
+				h.Assume(false)
+			}
+			ent := pool[1+h.Choice("ent", 2)]
+			cctx, cancel := context.WithCancel(context.Background())
+			cancel()
+			ok := vHTTPEntitiesCtx(cctx, ds, false, m.id, true, mk(ent, tag))
+			h.Assert(!ok, "an end request whose completion was cut off is not answered as completed :: "+when)
+			m.write(ent, tag)
+			m.active, m.id, m.seen = 0, "", map[string]bool{}
 		case 3: // job-driven full sync starts
 			if jobRunning {
 				h.Assume(false) // one run per job id at a time (C11)
